@@ -28,7 +28,7 @@ RULE = ('random histories of length 2-40 over 2-4 library objects (incl. two '
         'objects of the same database, never-used objects, default-'
         'constructed GroupLibrary / GroupAdditivityScheme objects) and 4-10 '
         'molecules; operations {load, decompose, estimate from any earlier '
-        'decomposition, evaluate Cp/H/S/G with/without S_elements, merge into '
+        'decomposition, evaluate Cp/H/S/G with/without S_elements and the three standard errors, merge into '
         'a scratch library, scheme built from includes}; biased towards '
         'interleaved decompositions before an estimate. Non-trivial = a '
         'history in which >=3 values were compared with the fresh-process '
@@ -150,9 +150,19 @@ def gen_history(rng, pools):
                             [x[0] for x in decs if x[1] == o] or [-1])})
         elif r < 0.88 and ests:
             e = rng.choice(ests[-4:])
-            ops.append({'op': 'eval', 'est': e[0], 'prop': rng.choice(PROPS),
-                        'T': rng.choice([300.0, 500.0, 298.15, 750.0]),
-                        's_el': rng.random() < 0.4})
+            db_of_est = [d for d in decs if d[0] == e[1]][0][2]
+            if db_of_est in libs.UQ_LIBS and rng.random() < 0.35:
+                # standard errors depend on the whole count vector
+                ops.append({'op': 'eval', 'est': e[0],
+                            'prop': rng.choice(['get_HoRT_SE', 'get_SoR_SE',
+                                                'get_CpoR_SE']),
+                            'T': rng.choice([300.0, 500.0, 750.0]),
+                            's_el': False})
+            else:
+                ops.append({'op': 'eval', 'est': e[0],
+                            'prop': rng.choice(PROPS),
+                            'T': rng.choice([300.0, 500.0, 298.15, 750.0]),
+                            's_el': rng.random() < 0.4})
         elif r < 0.94:
             o, n = rng.choice(objs)
             ops.append({'op': 'merge', 'src': o, 'db': n})
